@@ -91,7 +91,7 @@ package packet
 
 //@ func (p2 *Writer) BytesWithLength
 //@   props C20,C03
-//@   requires winv(p2) && p2.written >= 0
+//@   requires winv(p2)
 //@   ensures [C20 ok] !wfailed(p2) && p2.written + 4 < 4294967296 ==> err == nil && result == cat(be32(p2.written + 4), view(p2)) && len(result) == 4 + p2.written
 //@   ensures [C20 failed] wfailed(p2) ==> err != nil && len(result) == 0
 //@   ensures [C12 fresh] !wfailed(p2) ==> fresh(result)
@@ -105,6 +105,7 @@ package packet
 //@   props C20,C03
 //@   requires p2 != nil
 //@   ensures (result != nil) <==> wfailed(p2)
+//@   ensures nonsentinel(result)
 
 //@ func (p2 *Writer) Len
 //@   props C20,C03
@@ -258,6 +259,7 @@ package packet
 //@   requires p != nil
 //@   ensures (result != nil) <==> rfailed(p)
 //@   ensures isEOF(result) <==> reof(p)
+//@   ensures nonsentinel(result)
 
 //@ func (p *Reader) SetErrNil
 //@   props C20,C03
